@@ -1,0 +1,29 @@
+//go:build verif
+
+// Verification contracts (property C05, store side; comment-only, read by /verif/govc). No executable code.
+// Both stores publish exactly lastOffset+1 under the key of (topic, partition) and nothing else; the in-memory store
+// reads that value back.
+
+package metadata
+
+//@ func (s *InMemoryStore) UpdateOffsets
+//@   only_for C05
+//@   requires s.offsets != nil
+//@   ghost gk string = ""
+//@   ghost gdone bool = false
+//@   at partitionKey#1 before assert [C05.memory_store_key_is_topic_partition] arg0 == topic && arg1 == partition
+//@   at partitionKey#1 after set gk = ret0
+//@   at partitionKey#1 after set gdone = true
+//@   at mapupdate#1 before assert [C05.memory_store_publishes_last_offset_plus_one] gdone && key == gk && value == int64(lastOffset + 1)
+//@   ensures [C05.memory_store_touches_no_other_partition] forall k string :: k != gk ==> has(s.offsets, k) == old(has(s.offsets, k)) && s.offsets[k] == old(s.offsets[k])
+
+//@ func (s *EtcdStore) UpdateOffsets
+//@   only_for C05
+//@   exact_format_int
+//@   ghost gk string = ""
+//@   ghost gdone bool = false
+//@   at offsetKey#1 before assert [C05.etcd_store_key_is_topic_partition] arg0 == topic && arg1 == partition
+//@   at offsetKey#1 after set gk = ret0
+//@   at offsetKey#1 after set gdone = true
+//@   at Put#1 before assert [C05.etcd_store_publishes_last_offset_plus_one] gdone && arg1 == gk && arg2 == itoa(int64(lastOffset + 1))
+//@   never_calls [C05.etcd_store_update_writes_nothing_else] go.etcd.io/etcd/client/v3.KV.Delete, go.etcd.io/etcd/client/v3.KV.Txn, go.etcd.io/etcd/client/v3.KV.Do
